@@ -269,28 +269,44 @@ def _file_level_index(r, p):
         loops = [st for st in body if isinstance(st, ast.For)]
         rets = [st for st in body if isinstance(st, ast.Return)]
         out = norm(rets[0].value) if len(rets) == 1 and isinstance(rets[0].value, ast.Name) else None
-        if len(loops) != 1 or out is None or norm(loops[0].iter) not in f.params:
+        comp = rets[0].value if len(rets) == 1 and len(body) == 1 and isinstance(rets[0].value, ast.ListComp) else None
+        if comp is not None:
+            # a comprehension without a filter keeps one contribution per entry, in order
+            if any(g.ifs for g in comp.generators) or norm(comp.generators[0].iter) not in f.params:
+                problems.append("filters entries in a comprehension (a dropped entry shifts every later position)")
+        elif len(loops) != 1 or out is None or norm(loops[0].iter) not in f.params:
             problems.append("is not one loop over its parameter that builds and returns one list")
         else:
-            def count(stmts):
-                """set of numbers of elements added to the result on the paths through stmts (None: cannot tell)"""
-                acc = {0}
+            def count(stmts, acc):
+                """(numbers of names added on the paths that fall through stmts, numbers on paths that `continue`);
+                None when a statement cannot be accounted for.  acc: numbers added so far on the paths arriving."""
+                done = set()
                 for st in stmts:
+                    if not acc:
+                        break
                     if isinstance(st, ast.If):
-                        a, b = count(st.body), count(st.orelse)
-                        if a is None or b is None or any(norm(x) == out or (isinstance(x, ast.Name) and x.id == out) for x in ast.walk(st.test)):
+                        if any(isinstance(x, ast.Name) and x.id == out for x in ast.walk(st.test)):
                             return None
-                        step = a | b
+                        ra, rb = count(st.body, set(acc)), count(st.orelse, set(acc))
+                        if ra is None or rb is None:
+                            return None
+                        acc = ra[0] | rb[0]
+                        done |= ra[1] | rb[1]
+                    elif isinstance(st, ast.Continue):
+                        done |= acc
+                        acc = set()
                     elif isinstance(st, ast.Expr) and isinstance(st.value, ast.Call) and norm(st.value.func) in (out + ".append", out + ".extend"):
-                        step = {1}
+                        acc = {x + 1 for x in acc}
+                    elif isinstance(st, ast.AugAssign) and isinstance(st.op, ast.Add) and norm(st.target) == out:
+                        acc = {x + 1 for x in acc}
                     elif isinstance(st, (ast.Assign, ast.Expr)) and not any(isinstance(x, ast.Name) and x.id == out for x in ast.walk(st)):
-                        step = {0}
+                        pass
                     else:
                         return None
-                    acc = {x + y for x in acc for y in step}
-                return acc
-            c = count(loops[0].body)
-            if c != {1}:
+                return acc, done
+
+            c = count(loops[0].body, {0})
+            if c is None or (c[0] | c[1]) != {1}:
                 problems.append("does not add exactly one name per entry on every path (a skipped, filtered or de-duplicated entry shifts every later position)")
             pre = [st for st in body if st is not loops[0] and st is not rets[0]]
             if not (len(pre) == 1 and isinstance(pre[0], ast.Assign) and norm(pre[0].targets[0]) == out and isinstance(pre[0].value, ast.List) and not pre[0].value.elts):
